@@ -41,7 +41,10 @@ use crate::storage::PAGE_SIZE;
 use parking_lot::{Condvar, Mutex};
 use std::mem::ManuallyDrop;
 use std::ops::{Deref, DerefMut};
+#[cfg(not(kahflane_turdb_verif_sched))]
 use std::sync::atomic::{AtomicUsize, Ordering};
+#[cfg(kahflane_turdb_verif_sched)]
+use shuttle::sync::atomic::{AtomicUsize, Ordering};
 use std::sync::Arc;
 
 /// A pool of reusable page-sized buffers.
